@@ -24,8 +24,10 @@ RUST = {"y": "u8", "u": "u32", "x": "i64", "b": "bool", "s": "String", "A": "Vec
 SIG = {"y": "y", "u": "u", "x": "x", "b": "b", "s": "s", "A": "au", "R": "(us)", "N": "(us)", "D": "a{su}", "v": "v", "o": "o"}
 EMITS = {"t": "true", "i": "invalidates", "c": "const", "f": "false"}
 WORDS = ["Add", "Get", "Put", "Run", "Stop", "Go", "Mix", "Zap", "Hold", "Send", "Peek", "Flip", "Sum", "Cut", "Join", "Ask"]
-# no "-->": it would end the comment early and turn the rest of the doc text into markup (outside the modelled fragment)
-DOCS = [" plain text", " a -- b", " x <b>y</b> & \"z\" 'q'", " ends -- here", "", "  ", " two\nlines", " dash-", " -", " <!-- nested",
+# "--", "---", "----", "-->" and a trailing "-": rewritten by the macro since fix e95e1976 (before it "--" made the document
+# ill-formed and "-->" ended the comment early)
+DOCS = [" plain text", " a -- b", " x <b>y</b> & \"z\" 'q'", " ends --> here", "", "  ", " two\nlines", " dash-", " -", " <!-- nested",
+        " --- three", "----", " a--b---c----d-", "--> <method name=\"Injected\"/> <!--",
         " café ☃", " a - - b", "\tTab", " ]]> &amp; &#60;"]
 
 
@@ -481,7 +483,9 @@ def corpus_descs():
                      _m("MBlanks", "-", "-", "", ["", "  ", " lead blank skipped", "", " x", "  ", ""]),
                      _m("MLines", "s", "1s", "f", [" two\nlines", " third"]), _m("MXml", "-", "1s", "", [" x <b>y</b> & \"z\" 'q'"]),
                      _m("MDashEnd", "-", "-", "a", [" dash-", " -"]), _m("MOnlyBlank", "-", "-", "", ["", "   "]),
-                     _m("MNested", "-", "-", "", [" <!-- nested"])],
+                     _m("MNested", "-", "-", "", [" <!-- nested"]),
+                     _m("MThree", "-", "-", "", [" --- three", "----", " tail-"]),
+                     _m("MInject", "-", "-", "", ["--> <method name=\"Injected\"><arg type=\"s\" direction=\"in\"/></method> <!--"])],
          "props": [_p("PZed", "u", "rw", "t", "m", [" zed doc"]), _p("PAlpha", "u", "r", "i", "", [" alpha -- doc"]),
                    _p("Pa", "s", "w", "f", "m", [" setter only doc"]), _p("PB", "b", "rw", "f", "", [" café ☃"])],
          "signals": [_s("SDoc", "u", [" signal doc", " ]]> &amp; &#60;"]), _s("SDash", "-", [" a - - b"])]},
